@@ -83,6 +83,13 @@ func c19CLI(e *Env) {
 		return
 	}
 	os.WriteFile(filepath.Join(dir, "schema.sql"), []byte(c19Desired), 0o644)
+	// the same desired state as an HCL document (inspected from a database built from the SQL)
+	haveHCL := false
+	if err := execSQL(filepath.Join(dir, "desired.sqlite"), strings.Split(strings.TrimSuffix(strings.TrimSpace(c19Desired), ";"), ";\n")...); err == nil {
+		if o := runAtlas(e, dir, nil, "schema", "inspect", "--url", "sqlite://desired.sqlite"); o.Code == 0 {
+			haveHCL = os.WriteFile(filepath.Join(dir, "schema.hcl"), []byte(o.Stdout), 0o644) == nil
+		}
+	}
 	// made reports, per kind, whether the change was made to the database file
 	made := func(db string) (map[string]bool, error) {
 		conn, err := openSQLite(db, false)
@@ -220,6 +227,14 @@ func c19CLI(e *Env) {
 		o := runAtlas(e, dir, nil, append(args, xs...)...)
 		judge(fmt.Sprintf("exclude:%d", i), fmt.Sprintf("`schema apply --auto-approve --exclude %v`", c.pats), db, o, c.absent)
 		os.Remove(filepath.Join(dir, db))
+		if haveHCL {
+			// the desired state as HCL, without a dev database: the patterns are relative to the schema the
+			// connection is bound to on both sides
+			db := fresh(fmt.Sprintf("exhcl%d.sqlite", i))
+			o := runAtlas(e, dir, nil, append([]string{"schema", "apply", "--url", "sqlite://" + db, "--to", "file://schema.hcl", "--auto-approve"}, xs...)...)
+			judge(fmt.Sprintf("exclude-hcl:%d", i), fmt.Sprintf("`schema apply --to file://schema.hcl --auto-approve --exclude %v` (no dev database)", c.pats), db, o, c.absent)
+			os.Remove(filepath.Join(dir, db))
+		}
 		if len(c.pats) > 0 {
 			// the same patterns as the `exclude` list of the environment (no flag on the command line)
 			db := fresh(fmt.Sprintf("exenv%d.sqlite", i))
